@@ -42,6 +42,15 @@ Theorem C13_exit_without_finalizers_leaks_refuted :
 Proof. vm_compute. split; reflexivity. Qed.
 Print Assumptions C13_exit_without_finalizers_leaks_refuted.
 
+(* Known finding C13-PKL on the current tree: __reduce__ adds the reference for the transit as a side effect; when the
+   message that contains the pickle then fails to be pickled as a whole, the pickle never leaves and will never be
+   unpickled - the reference it holds (the only one left here) keeps the object hosted for ever. *)
+Theorem C13_failed_pickle_leaks_refuted :
+  let s := run now [OCreate 0 1; OPickle 1 false 2; ODrop 1] in
+  get_cnt s 0 = Some 1 /\ map r_h (refs s) = [HTransit false].
+Proof. vm_compute. split; reflexivity. Qed.
+Print Assumptions C13_failed_pickle_leaks_refuted.
+
 (* Non-vacuity: nesting, cascade, and the same two histories on the code as it is now. *)
 Example C13_example_nesting :
   let s := run now [OCreate 0 1; OCreate 0 2; OStore 2 0 3; ODrop 2; OPickle 1 false 4; OUnpickle 4 1 5] in
